@@ -305,6 +305,28 @@ def main():
                     for r in db.prefetch(query, thr):
                         l.append((r.score, r.signature))
                 res = "ok " + (rows(l) if op == "pfall" else canon_rows(l))
+            elif op == "xpfc":
+                # what `sourmash prefetch` reports: search.prefetch_database over every collection (the rows of
+                # Index.prefetch that pass PrefetchResult.pass_threshold), query flattened as the command does
+                from sourmash.search import prefetch_database
+                q, thr = int(a[0]), int(a[1])
+                query = S.sigs[q]
+                if query.minhash.track_abundance:
+                    with query.update() as query:
+                        query.minhash = query.minhash.flatten()
+                l = []
+                try:
+                    for d in a[2:]:
+                        db = S.dbs[int(d)]
+                        if not db:
+                            continue
+                        for r in prefetch_database(query, db, thr):
+                            l.append((r.f_match_query, r.match))
+                    res = "x ok " + canon_rows(l)
+                except BadOp:
+                    raise
+                except BaseException as e:      # noqa: BLE001
+                    res = "x err " + exc_name(e)
             elif op == "xgd":
                 q, thr, ign, mode = int(a[0]), int(a[1]), bool(int(a[2])), a[3]
                 dbs = [S.dbs[int(x)] for x in a[4:]]
